@@ -368,6 +368,9 @@ pub struct SubCheck {
     pub weight: u32,
     pub run: RunFn,
     pub replay: ReplayFn,
+    /// run in a child process, so that an abort / segfault / stack overflow of the code under
+    /// test is observed (and reported as a violation) instead of killing the whole check
+    pub isolate: bool,
 }
 
 impl SubCheck {
@@ -385,6 +388,7 @@ impl SubCheck {
     {
         let f2 = f.clone();
         SubCheck {
+            isolate: false,
             name: name.into(),
             weight,
             run: Box::new(move |acc: &mut Acc| {
@@ -408,12 +412,140 @@ impl SubCheck {
         replay: impl Fn(&Value, &mut Acc) -> R + Send + Sync + 'static,
     ) -> SubCheck {
         SubCheck {
+            isolate: false,
             name: name.into(),
             weight,
             run: Box::new(run),
             replay: Box::new(replay),
         }
     }
+
+    pub fn isolated(mut self) -> SubCheck {
+        self.isolate = true;
+        self
+    }
+}
+
+/// Serialisable form of an accumulator (child process -> parent).
+#[derive(Serialize, serde::Deserialize, Default)]
+pub struct AccWire {
+    pub evals: u64,
+    pub nontrivial: Vec<u64>,
+    pub classes: BTreeMap<String, u64>,
+    pub samples: Vec<Value>,
+    pub violations: Vec<(String, String, String, Value)>,
+    pub known_hits: BTreeMap<String, (u64, String)>,
+    pub notes: Vec<String>,
+    pub exhaustive: Vec<String>,
+    pub harness_errors: Vec<String>,
+}
+
+impl Acc {
+    pub fn to_wire(&self) -> AccWire {
+        AccWire {
+            evals: self.evals,
+            nontrivial: self.nontrivial.iter().copied().collect(),
+            classes: self.classes.clone(),
+            samples: self.samples.clone(),
+            violations: self.violations.iter().map(|v| (v.sig.clone(), v.what.clone(), v.sub.clone(), v.case.clone())).collect(),
+            known_hits: self.known_hits.clone(),
+            notes: self.notes.clone(),
+            exhaustive: self.exhaustive.clone(),
+            harness_errors: self.harness_errors.clone(),
+        }
+    }
+    pub fn absorb(&mut self, w: AccWire) {
+        self.evals += w.evals;
+        self.nontrivial.extend(w.nontrivial);
+        for (k, v) in w.classes {
+            *self.classes.entry(k).or_insert(0) += v;
+        }
+        self.samples.extend(w.samples);
+        for (sig, what, sub, case) in w.violations {
+            self.violations.push(Violation { sig, what, sub, case });
+        }
+        for (k, v) in w.known_hits {
+            let e = self.known_hits.entry(k).or_insert((0, v.1));
+            e.0 += v.0;
+        }
+        self.notes.extend(w.notes);
+        self.exhaustive.extend(w.exhaustive);
+        self.harness_errors.extend(w.harness_errors);
+    }
+}
+
+/// Run one sub-check in a child `pv child ...` process and merge what it reports.
+fn run_isolated(prop: &str, sub: &SubCheck, acc: &mut Acc) {
+    use std::os::unix::process::ExitStatusExt;
+    let exe = match std::env::current_exe() {
+        Ok(e) => e,
+        Err(e) => {
+            acc.harness_errors.push(format!("{}: cannot find own executable: {e}", sub.name));
+            return;
+        }
+    };
+    let out = std::process::Command::new(exe)
+        .args(["child", prop, &sub.name, acc.tier.name(), &acc.seed.to_string()])
+        .env("PV_CHILD", "1")
+        .output();
+    let out = match out {
+        Ok(o) => o,
+        Err(e) => {
+            acc.harness_errors.push(format!("{}: cannot spawn child: {e}", sub.name));
+            return;
+        }
+    };
+    let stdout = String::from_utf8_lossy(&out.stdout);
+    let mut got = false;
+    for line in stdout.lines() {
+        if let Some(j) = line.strip_prefix("ACC ") {
+            if let Ok(w) = serde_json::from_str::<AccWire>(j) {
+                acc.absorb(w);
+                got = true;
+            }
+        }
+    }
+    if !out.status.success() || !got {
+        let stderr = String::from_utf8_lossy(&out.stderr);
+        let tail: String = stderr.lines().rev().take(12).collect::<Vec<_>>().into_iter().rev().collect::<Vec<_>>().join(" | ");
+        let progress = stdout.lines().rev().find(|l| l.starts_with("PROGRESS ")).unwrap_or("").to_string();
+        let how = match (out.status.signal(), out.status.code()) {
+            (Some(s), _) => format!("signal-{s}"),
+            (None, Some(c)) => format!("exit-{c}"),
+            _ => "unknown".into(),
+        };
+        // memory exhaustion / kill are infrastructure, not verdicts
+        if out.status.signal() == Some(9) {
+            acc.harness_errors.push(format!("{}: child killed (SIGKILL, out of memory?)", sub.name));
+            return;
+        }
+        acc.fail(
+            Fail::new(
+                format!("{prop}/process-crash/{}/{how}", sub.name),
+                format!("the process running this sub-check died ({how}) instead of returning Ok/Err; last progress: {progress}; stderr tail: {tail}"),
+            ),
+            json!({"child_crash": true, "progress": progress}),
+        );
+    }
+}
+
+/// Entry point of `pv child <prop> <sub> <tier> <seed>`.
+pub fn child_main(def: PropertyDef, sub_name: &str, tier: Tier, seed: u64, verif_dir: &str) -> i32 {
+    let known = Arc::new(Known::load(&format!("{verif_dir}/known_findings.json")));
+    for sub in def.subs {
+        if sub.name == sub_name {
+            let mut acc = Acc::new(&sub.name, tier, seed, known);
+            crate::rng::set_seeded(mix(seed, fnv(sub.name.as_bytes())));
+            let r = std::panic::catch_unwind(std::panic::AssertUnwindSafe(|| (sub.run)(&mut acc)));
+            if let Err(p) = r {
+                acc.harness_errors.push(format!("{}: sub-check panicked outside an oracle: {}", sub.name, crate::util::panic_message(&p)));
+            }
+            println!("ACC {}", serde_json::to_string(&acc.to_wire()).unwrap());
+            return 0;
+        }
+    }
+    println!("no such sub-check {sub_name}");
+    2
 }
 
 pub struct PropertyDef {
@@ -439,6 +571,7 @@ pub fn run_property(def: PropertyDef, tier: Tier, seed: u64, verif_dir: &str, on
         .and_then(|s| s.parse::<usize>().ok())
         .unwrap_or(14)
         .max(1);
+    let prop_id = def.id;
     let queue = std::sync::Mutex::new(subs.iter().collect::<Vec<_>>().into_iter());
     let results = std::sync::Mutex::new(Vec::<(String, Acc, f64)>::new());
     std::thread::scope(|sc| {
@@ -450,13 +583,17 @@ pub fn run_property(def: PropertyDef, tier: Tier, seed: u64, verif_dir: &str, on
                     let mut acc = Acc::new(&sub.name, tier, seed, known.clone());
                     let st = std::time::Instant::now();
                     crate::rng::set_seeded(mix(seed, fnv(sub.name.as_bytes())));
-                    let r = std::panic::catch_unwind(std::panic::AssertUnwindSafe(|| (sub.run)(&mut acc)));
-                    crate::rng::set_passthrough();
-                    if let Err(p) = r {
-                        let msg = crate::util::panic_message(&p);
-                        acc.harness_errors
-                            .push(format!("{}: sub-check panicked outside an oracle: {msg}", sub.name));
+                    if sub.isolate && std::env::var_os("PV_CHILD").is_none() {
+                        run_isolated(prop_id, sub, &mut acc);
+                    } else {
+                        let r = std::panic::catch_unwind(std::panic::AssertUnwindSafe(|| (sub.run)(&mut acc)));
+                        if let Err(p) = r {
+                            let msg = crate::util::panic_message(&p);
+                            acc.harness_errors
+                                .push(format!("{}: sub-check panicked outside an oracle: {msg}", sub.name));
+                        }
                     }
+                    crate::rng::set_passthrough();
                     results
                         .lock()
                         .unwrap()
@@ -603,6 +740,19 @@ pub fn replay_file(defs: Vec<PropertyDef>, path: &str, verif_dir: &str) -> i32 {
             continue;
         }
         for sc in d.subs {
+            if sc.name == sub && case.get("child_crash").and_then(|x| x.as_bool()).unwrap_or(false) {
+                // the recorded failure is a dead child process: run the sub-check again in a child
+                let mut acc = Acc::new(&sc.name, Tier::Quick, 20261002, known.clone());
+                run_isolated(d.id, &sc, &mut acc);
+                if let Some(vv) = acc.violations.first() {
+                    println!("VIOLATION property={prop} replay={path}");
+                    println!("  signature: {}", vv.sig);
+                    println!("  what: {}", vv.what);
+                    return 1;
+                }
+                println!("replay {path}: the sub-check ran to completion in a child process");
+                return 0;
+            }
             if sc.name == sub {
                 let mut acc = Acc::new(&sc.name, Tier::Quick, 0, known.clone());
                 crate::rng::set_seeded(1);
